@@ -3,11 +3,14 @@ package walq
 import (
 	"fmt"
 	"math/rand"
+	"os"
 	"sort"
+	"time"
 
 	"github.com/lindb/lindb/pkg/queue"
 
 	"verifsim/core"
+	"verifsim/simrt"
 )
 
 // ---- C06: consumer groups -------------------------------------------------
@@ -16,6 +19,23 @@ func genC06(rng *rand.Rand, tier string) *core.Plan {
 	p := &core.Plan{Harness: "walq", Prop: "C06", Cfg: map[string]int{}}
 	groups := 1 + rng.Intn(3)
 	p.Cfg["groups"] = groups
+	if rng.Intn(8) == 0 {
+		// a follower's log: its local replicator consumes and acknowledges in one task and waits inside Consume when
+		// the log is drained; the stream handler's task moves the index forward (the handshake's reset) and appends
+		p.Cfg["conc"] = 2
+		p.Cfg["preempt_pm"] = pick(rng, 0, 20, 80, 200)
+		p.Cfg["switch_pm"] = pick(rng, 100, 400)
+		for r := 1 + rng.Intn(3); r > 0; r-- {
+			if rng.Intn(4) != 0 {
+				p.Ops = append(p.Ops, core.Op{K: "reset", A: int64(1 + rng.Intn(12))})
+			}
+			for n := 1 + rng.Intn(4); n > 0; n-- {
+				p.Ops = append(p.Ops, core.Op{K: "put", A: int64(8 + rng.Intn(40))})
+			}
+			p.Ops = append(p.Ops, core.Op{K: "drain"})
+		}
+		return p
+	}
 	if rng.Intn(3) == 0 {
 		// concurrent consume-vs-ack on one group
 		p.Cfg["conc"] = 1
@@ -69,6 +89,10 @@ func genC06(rng *rand.Rand, tier string) *core.Plan {
 			p.Ops = append(p.Ops, core.Op{K: "gc"})
 		case r < 95:
 			p.Ops = append(p.Ops, core.Op{K: "stop", T: g})
+		case r < 97:
+			// the explicit index reset of the statement (FanOutQueue.SetAppendedSeq: what a follower does when the
+			// handshake tells it the leader's position): A selects the target around the appended position
+			p.Ops = append(p.Ops, core.Op{K: "reset", A: int64(rng.Intn(100)), B: int64(rng.Intn(3))})
 		default:
 			p.Ops = append(p.Ops, core.Op{K: "reopen"})
 		}
@@ -180,6 +204,10 @@ func runC06(c *core.RunCtx) {
 		runC06conc(c)
 		return
 	}
+	if c.Plan.C("conc", 0) == 2 {
+		runC06follower(c)
+		return
+	}
 	sim := c.Sim
 	m := &c06{c: c, dir: c.Dir + "/fq", groups: map[string]*mgroup{}, appended: -1, qack: -1, msgs: map[int64]int64{}}
 	var err error
@@ -259,6 +287,25 @@ func runC06(c *core.RunCtx) {
 			}
 			g.cg.SetConsumedSeq(target)
 			g.consumed = target
+		case "reset":
+			// forwards only (beyond the appended position): the handshake's use on both sides. lindb never issues a
+			// backward reset; with VERIF_C06_BACKWARD_RESET=1 (exploration, not part of the check) B = 0 resets into
+			// the appended range - stale index entries beyond the new position then mislead a later GC (a backward
+			// reset, reopen, forward reset, append, GC history loses the new message)
+			target := m.appended + 1 + op.A%4
+			if op.B == 0 && os.Getenv("VERIF_C06_BACKWARD_RESET") != "" {
+				target = m.qack + (m.appended-m.qack+1)*op.A/100
+			}
+			sim.Fault("index-reset")
+			sim.Event("reset to %d", target)
+			m.fq.SetAppendedSeq(target)
+			// everything is at the new position: the queue and every existing group
+			m.appended, m.qack = target, target
+			for _, n := range m.names() {
+				if og := m.groups[n]; og.open {
+					og.consumed, og.ack = target, target
+				}
+			}
 		case "sync":
 			m.fq.Sync()
 		case "gc":
@@ -491,4 +538,137 @@ func runC06conc(c *core.RunCtx) {
 		return
 	}
 	sim.Probe("concurrent-reopen-checked")
+}
+
+// runC06follower: the log of a follower. One task consumes and acknowledges message by message and waits inside Consume
+// when nothing is left (the local replicator); the other one is the stream handler: it moves the index forward while the
+// consumer waits (FanOutQueue.SetAppendedSeq, the handshake's reset - the explicit index reset of the statement), appends,
+// and lets the consumer drain the log. After a reset to n the next sequence handed out is n+1, consecutive from there.
+func runC06follower(c *core.RunCtx) {
+	sim := c.Sim
+	dir := c.Dir + "/fq"
+	fq, err := queue.NewFanOutQueue(dir, PageSize)
+	if err != nil {
+		c.Anomaly("NewFanOutQueue: %v", err)
+		return
+	}
+	cg, err := fq.GetOrCreateConsumerGroup("g0")
+	if err != nil {
+		c.Anomaly("group: %v", err)
+		return
+	}
+	appended := int64(-1) // model: position of the last message appended (or of the last reset)
+	expect := int64(0)    // next sequence the consumer must receive
+	msgs := map[int64]int64{}
+	stop := false
+	resetting := false
+	epoch := 0        // number of resets so far
+	done := int64(-1) // last sequence consumed and acknowledged (or the position of the last reset)
+	consumerDone := false
+	sim.Spawn("consumer", func() {
+		defer func() { consumerDone = true }()
+		for !stop && !c.Violated() {
+			s := cg.Consume()
+			if resetting {
+				// handed out while the reset was moving the queue and the group (the statement's exemption): the
+				// positions the reset leaves behind are what counts
+				sim.Probe("consume-returned-inside-reset")
+				sim.Await(func() bool { return !resetting })
+				continue
+			}
+			if s < 0 {
+				// closed, or nothing to hand out after all: the replica loop asks again
+				if stop {
+					return
+				}
+				simrt.Sleep(time.Millisecond)
+				continue
+			}
+			c.Oracle()
+			if s != expect {
+				c.Violate("C06/consume-not-consecutive", "follower log: Consume returned %d, the next sequence is %d (appended %d)", s, expect, appended)
+				return
+			}
+			data, err := fq.Queue().Get(s)
+			if id, ok := parse(data); err != nil || !ok || id != msgs[s] {
+				c.Violate("C06/unacked-message-unreadable", "follower log: sequence %d handed out by Consume: err=%v valid=%v id=%d, expected message %d", s, err, ok, id, msgs[s])
+				return
+			}
+			expect = s + 1
+			e0 := epoch
+			cg.Ack(s)
+			got := cg.AcknowledgedSeq()
+			if epoch != e0 || resetting {
+				continue // the index was reset under the acknowledgement
+			}
+			done = s
+			if got != s {
+				c.Violate("C06/in-window-ack-ignored", "follower log: ack %d of the sequence just consumed left acknowledged at %d", s, got)
+				return
+			}
+		}
+	})
+	id := int64(0)
+	ops := append(append([]core.Op{}, c.Plan.Ops...), core.Op{K: "drain"}) // also when shrinking removed it
+	for _, op := range ops {
+		if c.Violated() || consumerDone {
+			break
+		}
+		sim.Event("op %s", op.String())
+		switch op.K {
+		case "reset":
+			// only while the consumer has nothing left (it waits inside Consume, or is about to)
+			target := appended + op.A
+			sim.Fault("index-reset-under-waiting-consumer")
+			resetting = true
+			fq.SetAppendedSeq(target)
+			epoch++
+			appended, expect, done, resetting = target, target+1, target, false
+		case "put":
+			id++
+			msgs[appended+1] = id
+			if err := fq.Queue().Put(message(id, int(op.A))); err != nil {
+				c.Anomaly("Put: %v", err)
+				return
+			}
+			appended++
+		case "drain":
+			t0 := sim.Elapsed()
+			sim.Await(func() bool {
+				return done == appended || c.Violated() || consumerDone || sim.Elapsed()-t0 > time.Minute
+			})
+			if done != appended && !c.Violated() {
+				c.Violate("C06/consume-not-consecutive", "follower log: the consumer received nothing beyond %d within a simulated minute although the log holds messages up to %d", expect-1, appended)
+			}
+			if !c.Violated() {
+				fq.Sync()
+				ca, cc, qa, app := cg.AcknowledgedSeq(), cg.ConsumedSeq(), fq.Queue().AcknowledgedSeq(), fq.Queue().AppendedSeq()
+				c.Oracle()
+				if !(ca == appended && cc == appended && app == appended && qa <= ca) {
+					c.Violate("C06/position-mismatch", "follower log, drained: acknowledged=%d consumed=%d appended=%d queue ack=%d, everything up to %d was consumed and acknowledged", ca, cc, app, qa, appended)
+				}
+			}
+		}
+	}
+	stop = true
+	if c.Violated() {
+		return
+	}
+	fq.Close() // wakes the waiting consumer
+	sim.Fault("close-reopen")
+	fq2, err := queue.NewFanOutQueue(dir, PageSize)
+	if err != nil {
+		c.Violate("C06/reopen-failed", "NewFanOutQueue of the follower log: %v", err)
+		return
+	}
+	defer fq2.Close()
+	cg2, err := fq2.GetOrCreateConsumerGroup("g0")
+	if err != nil {
+		c.Violate("C06/reopen-failed", "group of the follower log: %v", err)
+		return
+	}
+	if fq2.Queue().AppendedSeq() != appended || cg2.ConsumedSeq() != appended || cg2.AcknowledgedSeq() != appended {
+		c.Violate("C06/position-mismatch", "follower log, after reopen: appended=%d consumed=%d acknowledged=%d, before the close they all were %d",
+			fq2.Queue().AppendedSeq(), cg2.ConsumedSeq(), cg2.AcknowledgedSeq(), appended)
+	}
 }
